@@ -118,6 +118,83 @@ fresh_repo
 apply_edit src/control/group/generic.rs 'repeat(Tag(0x01))' 'repeat(Tag(0x02))' \
   && run_case generic_match_tag_0x02 fail || bad_case generic_match_tag_0x02 fail
 
+# ---- (c) decision expressions / book-keeping assignments of RawTable / RawTableInner ---------------
+# harmless: comments / line breaks inside extracted expressions, `erase` restructured into the
+# equivalent `let full_run = ..; if full_run < WIDTH {EMPTY-branch} else {DELETED-branch}`
+fresh_repo
+{ apply_edit $RAW 'self.table.items + self.table.growth_left' 'self.table.items /* live */ +\n            self.table.growth_left // spare' \
+  && apply_edit $RAW 'if unlikely(additional > self.table.growth_left) {' 'if unlikely( additional > self.table.growth_left ) { // grow' \
+  && apply_edit $RAW 'let ctrl = if empty_before.leading_zeros() + empty_after.trailing_zeros() >= Group::WIDTH {\n            Tag::DELETED\n        } else {\n            self.growth_left += 1;\n            Tag::EMPTY\n        };' 'let full_run = empty_before.leading_zeros() + empty_after.trailing_zeros();\n        let ctrl = if full_run < Group::WIDTH {\n            self.growth_left += 1;\n            Tag::EMPTY\n        } else {\n            Tag::DELETED\n        };' ; } \
+  && run_case bookkeeping_reformat_and_erase_restructured pass || bad_case bookkeeping_reformat_and_erase_restructured pass
+
+fresh_repo
+apply_edit $RAW 'self.table.items + self.table.growth_left' 'bucket_mask_to_capacity(self.table.bucket_mask)' \
+  && run_case capacity_from_mask fail || bad_case capacity_from_mask fail
+
+fresh_repo
+apply_edit $RAW 'if unlikely(additional > self.table.growth_left) {' 'if unlikely(additional >= self.table.growth_left) {' \
+  && run_case reserve_ge fail || bad_case reserve_ge fail
+
+fresh_repo
+apply_edit $RAW 'if additional > self.table.growth_left {' 'if additional > self.table.growth_left + 1 {' \
+  && run_case try_reserve_plus_1 fail || bad_case try_reserve_plus_1 fail
+
+fresh_repo
+apply_edit $RAW 'self.table.growth_left == 0 && old_ctrl.special_is_empty()' 'self.table.growth_left == 0 || old_ctrl.special_is_empty()' \
+  && run_case insert_grow_or fail || bad_case insert_grow_or fail
+
+fresh_repo
+apply_edit $RAW 'self.growth_left -= usize::from(old_ctrl.special_is_empty());' 'self.growth_left -= 1;' \
+  && run_case record_insert_always_dec fail || bad_case record_insert_always_dec fail
+
+fresh_repo
+apply_edit $RAW '>= Group::WIDTH {\n            Tag::DELETED' '< Group::WIDTH {\n            Tag::DELETED' \
+  && run_case erase_branches_swapped fail || bad_case erase_branches_swapped fail
+
+fresh_repo
+apply_edit $RAW '        self.set_ctrl(index, ctrl);\n        self.items -= 1;' '        self.set_ctrl(index, ctrl);' \
+  && run_case erase_no_items_dec fail || bad_case erase_no_items_dec fail
+
+fresh_repo
+apply_edit $RAW 'guard.growth_left = bucket_mask_to_capacity(guard.bucket_mask) - guard.items;' 'guard.growth_left = bucket_mask_to_capacity(guard.bucket_mask);' \
+  && run_case rehash_growth_left_no_items fail || bad_case rehash_growth_left_no_items fail
+
+fresh_repo
+apply_edit $RAW '        self.items = 0;\n        self.growth_left = bucket_mask_to_capacity(self.bucket_mask);' '        self.growth_left = bucket_mask_to_capacity(self.bucket_mask) - self.items;\n        self.items = 0;' \
+  && run_case clear_no_drop_minus_items fail || bad_case clear_no_drop_minus_items fail
+
+fresh_repo
+apply_edit $RAW '        if self.is_empty() {\n            // Special case empty table to avoid surprising O(capacity) time.\n            return;' '        if self.is_empty() {\n            self.table.growth_left = bucket_mask_to_capacity(self.table.bucket_mask);\n            return;' \
+  && run_case clear_fast_path_writes fail || bad_case clear_fast_path_writes fail
+
+fresh_repo
+apply_edit $RAW 'let min_size = usize::max(self.table.items, min_size);' 'let min_size = usize::min(self.table.items, min_size);' \
+  && run_case shrink_to_min fail || bad_case shrink_to_min fail
+
+fresh_repo
+apply_edit $RAW 'if min_buckets < self.buckets() {' 'if min_buckets <= self.buckets() {' \
+  && run_case shrink_to_le fail || bad_case shrink_to_le fail
+
+fresh_repo
+apply_edit $RAW 'if self_.buckets() != source.buckets() {' 'if self_.buckets() < source.buckets() {' \
+  && run_case clone_from_lt fail || bad_case clone_from_lt fail
+
+fresh_repo
+apply_edit $RAW '        new_table.growth_left -= self.items;\n' '' \
+  && run_case resize_inner_no_growth_left_sub fail || bad_case resize_inner_no_growth_left_sub fail
+
+fresh_repo
+apply_edit $RAW 'Some((probe_seq.pos + bit.unwrap()) & self.bucket_mask)' 'Some(probe_seq.pos + bit.unwrap())' \
+  && run_case insert_slot_index_unmasked fail || bad_case insert_slot_index_unmasked fail
+
+fresh_repo
+apply_edit $RAW 'growth_left: bucket_mask_to_capacity(buckets - 1),' 'growth_left: buckets - 1,' \
+  && run_case new_uninitialized_growth_left fail || bad_case new_uninitialized_growth_left fail
+
+fresh_repo
+apply_edit $RAW '            self.table.clear_no_drop();\n\n            // Move the now empty table back' '            self.table.growth_left += self.table.items;\n            self.table.items = 0;\n\n            // Move the now empty table back' \
+  && run_case drain_drop_inline_reset fail || bad_case drain_drop_inline_reset fail
+
 # ---- extra: unsupported syntax must be a hard translation error --------------------------------
 fresh_repo
 apply_edit $RAW 'let cap = min_cap.max(cap);' 'let cap = loop { break min_cap.max(cap); };' \
